@@ -47,7 +47,7 @@ let op_core args = match args with
 let op_pdus args = match args with
   | sel :: auto :: w :: h :: layout :: uid :: version :: share :: name :: dom :: user :: pw :: events :: _ ->
     let c = cfg N0 false (auto = "1") (num w) (num h) (num layout) (str name) (str dom) (str user) (str pw) in
-    let i = { i_selected = num sel; i_version = num version; i_uid = num uid; i_share = num share } in
+    let i = { i_selected = num sel; i_version = num version; i_uid = num uid; i_share = num share; i_io = num "1003" } in
     let evs = if events = "-" then [] else List.map mk_event (String.split_on_char ',' events) in
     let (o, fs) = run_writes (emitted_session (prof ()) version_arms_swapped c i evs) [] in
     res_str o ^ " " ^ frames fs
